@@ -413,16 +413,20 @@ RULES = [
 ]
 
 EXPLANATION = (
-    "Static structural necessary conditions of C07: every division on the path of the AVG arm has floating-point "
-    "operands; each of the nine aggregate arms uses its primitive (min, max, sum, len, mean), the variance family "
-    "divides by n (population) or n-1 (sample) and takes a square root exactly for STDDEV; get_variance accumulates "
-    "(mean - value)^2 / n; is_aggregate_function, the arms and the documentation agree; the aggregation buffer has "
+    "Static necessary conditions of C07: every division on the path of the AVG arm has floating-point "
+    "operands; get_aggregate_value is interpreted from the source (helpers included) for every Function variant on twelve "
+    "discriminating buffers and must give the textbook value (COUNT = rows, SUM / MIN / MAX exact - values beyond 2^53 and, for "
+    "MIN / MAX, below zero -, AVG = SUM / COUNT, the variance family by the population / sample formulas to 1e-9), a "
+    "non-aggregate the default; is_aggregate_function agrees with the documentation on every variant (only when the function "
+    "cannot be interpreted: each arm uses its primitive, divisor n or n-1, square root exactly for STDDEV, accumulation of "
+    "(mean - value)^2 / n); the aggregation buffer has "
     "one writer (check_file, after the WHERE filter, outside any loop) and the aggregate reads that buffer keyed by "
     "the text of its argument. Numeric exactness for large sums, empty-input conventions and rounding are not decided."
     " The aggregate's argument is evaluated into the entry's row before the key is read and the evaluator stores function/column/arithmetic values under the expression text.")
 ASSUMPTIONS = ["rustc's HIR/MIR faithfully represent the source; exporter and rule scripts are correct",
                "Iterator::min/max, f64::sqrt/powi as documented"]
-NOT_DECIDED = ["exactness for sums beyond usize/i64, values that do not parse as integers", "empty-input conventions", "floating-point rounding"]
+NOT_DECIDED = ["the aggregate's value on buffers other than the twelve of the table (the table discriminates families of formulas; it is not a proof for every buffer)",
+               "exactness for sums beyond usize/i64, values that do not parse as integers, SUM / AVG / variance over negative cells", "empty-input conventions, sample statistics of one row", "floating-point rounding"]
 
 
 def r6(ctx):
